@@ -1,0 +1,30 @@
+//go:build verif
+// +build verif
+
+package bfe_balance
+
+import (
+	"github.com/bfenetworks/bfe/bfe_balance/bal_gslb"
+	"github.com/bfenetworks/bfe/bfe_config/bfe_cluster_conf/cluster_table_conf"
+	"github.com/bfenetworks/bfe/bfe_config/bfe_cluster_conf/gslb_conf"
+)
+
+// VerifC09Init is BalTable.Init without the file loading (same two steps, same early return), for the
+// out-of-tree verification harness (build tag verif).
+func (t *BalTable) VerifC09Init(gslbConf gslb_conf.GslbConf, backendConf cluster_table_conf.ClusterTableConf) error {
+	if err := t.gslbInit(gslbConf); err != nil {
+		return err
+	}
+	return t.backendInit(backendConf)
+}
+
+// VerifC09Clusters returns a copy of the cluster -> balancer map.
+func (t *BalTable) VerifC09Clusters() map[string]*bal_gslb.BalanceGslb {
+	t.lock.RLock()
+	defer t.lock.RUnlock()
+	m := make(map[string]*bal_gslb.BalanceGslb, len(t.balTable))
+	for k, v := range t.balTable {
+		m[k] = v
+	}
+	return m
+}
